@@ -142,6 +142,33 @@ def learned_stream(rs, tier):
                                  conj_len=cfg["conj_len"], arity=cfg["arity"], random_seed=cfg["seed"])
             return root, X.shape[1], None
         out.append(("xpc", cfg, f, True))
+    # single structured-decomposable XPCs on data with constant columns and differently correlated row groups: a level of the
+    # partition tree can be constant on its conjunction variables.  Many cheap runs, screened in Python (SCREEN tag): only the
+    # runs whose product scopes cross, plus a sample, go through the certificate checker.
+    for i in range(120 if tier == "quick" else 800):
+        cfg = dict(det=bool(i % 2), sd=True, sd_level=None, ensemble=False, conj_len=int(rs.choice([1, 1, 2])), arity=int(rs.choice([2, 3])),
+                   min_part_inst=int(rs.choice([20, 40, 60])), n=int(rs.choice([200, 400])), d=int(rs.randint(6, 10)),
+                   seed=int(rs.randint(1000)), const_cols=int(rs.choice([1, 1, 2])), screen=True)
+        def f(cfg=cfg):
+            n, d = cfg["n"], cfg["d"]
+            g = rs.randint(0, 4, size=n)                                   # four row groups with different chains
+            X = np.zeros((n, d), dtype=np.float32)
+            X[:, 0] = g // 2; X[:, 1] = g % 2
+            rest = list(range(2, d))
+            for gi in range(4):
+                rows = np.where(g == gi)[0]
+                order = list(rest) if gi % 2 == 0 else [rest[0]] + list(rs.permutation(rest[1:]))
+                prev = (rs.rand(len(rows)) < 0.5)
+                for v in order:
+                    flip = rs.rand(len(rows)) < 0.15
+                    prev = np.where(flip, ~prev, prev); X[rows, v] = prev
+            X = X[:, rs.permutation(d)]
+            for c in rs.choice(d, size=cfg["const_cols"], replace=False):
+                X[:, c] = float(rs.randint(2))
+            root, _ = learn_xpc(X, det=cfg["det"], sd=True, min_part_inst=cfg["min_part_inst"], conj_len=cfg["conj_len"],
+                                arity=cfg["arity"], use_greedy_ordering=bool(rs.rand() < 0.5), random_seed=cfg["seed"])
+            return root, X.shape[1], None
+        out.append(("xpc", cfg, f, True))
     return out
 
 
@@ -167,6 +194,13 @@ def main(tier, seed, replay=None):
             tab = G.Table(root, {}, renorm=True)
         except Exception as e:
             rep.violation(dict(kind="returned-object-not-a-circuit", tag=tag, cfg=cfg, error=f"{type(e).__name__}: {e}"), True); continue
+        if cfg.get("screen"):
+            dist["screened"] = dist.get("screened", 0) + 1
+            scs = [frozenset(n["scope"]) for n in tab.nodes if n["kind"] == "prod"] + \
+                  [frozenset(x) for n in tab.nodes if n["kind"] == "clt" for x in clt_subtree_scopes(n)]
+            crossing = any(a & b and not (a <= b or b <= a) for ii, a in enumerate(scs) for b in scs[ii + 1:])
+            if not crossing and dist["screened"] % 12 != 0:
+                continue                          # not suspicious and not in the sample: skipped (counted in `screened`)
         bad = None
         nvec = max(len(n.get("ws", [])) for n in tab.nodes) if tab.nodes else 1
         if float(tab.max_adjust) > 2e-6 * max(nvec, 2):
